@@ -41,7 +41,7 @@ Proof.
     destruct (arith_eqb op0 op) eqn:E; [|discriminate].
     assert (op0 = op) by (destruct op0, op; try discriminate; reflexivity). subst op0.
     destruct (sval op e1) as [x|]; [|discriminate].
-    destruct (in_i64 (ap op x z)) eqn:R; [|discriminate]. injection H as <-.
+    destruct (in_i64 (ap op x z)) eqn:R; [|unfold FoldFacts.nary_fold_checked in H; discriminate]. injection H as <-.
     cbn [eval]. rewrite (IHe1 x en eq_refl). cbn [v_arith].
     destruct Hop as [-> | [-> | ->]]; cbn [ap arith_int] in *; rewrite (in_i64_wrap _ R); reflexivity.
 Qed.
@@ -50,12 +50,22 @@ Proof.
   intros op e en Hop. unfold nary. destruct (sval op e) as [r|] eqn:E; [|reflexivity].
   cbn [eval]. symmetry. exact (sval_sound op Hop e r en E).
 Qed.
+Lemma fold_shift_sound : forall op x y, (op = Shl \/ op = Shr) -> 0 <= y ->
+  arith_int op x y = VInt (fold_shift op x y).
+Proof.
+  intros op x y [-> | ->] Hy; cbn [arith_int fold_shift];
+    unfold FoldFacts.shl_fold_limit, FoldFacts.shl_fold_over, FoldFacts.shr_fold_limit, FoldFacts.shr_fold_over, FoldFacts.shr_fold_arithmetic;
+    destruct (64 <=? y) eqn:E; try reflexivity;
+    apply Z.leb_gt in E; rewrite Z.mod_small by lia; reflexivity.
+Qed.
 Lemma fold_bin_sound : forall op a b en, eval en (fold_bin op a b) = eval en (EArith op a b).
 Proof.
   intros op a b en. unfold fold_bin. destruct a; try reflexivity. destruct b; try reflexivity.
   destruct op; try reflexivity.
-  - destruct (0 <=? z0); [|reflexivity]. destruct (arith_int Shl z z0) eqn:E; cbn [eval v_arith]; rewrite ?E; reflexivity.
-  - destruct (0 <=? z0); [|reflexivity]. destruct (arith_int Shr z z0) eqn:E; cbn [eval v_arith]; rewrite ?E; reflexivity.
+  - unfold FoldFacts.shift_fold_needs_nonneg_count. cbn [negb orb]. destruct (0 <=? z0) eqn:E; [|reflexivity].
+    apply Z.leb_le in E. cbn [eval v_arith]. rewrite (fold_shift_sound Shl z z0 (or_introl eq_refl) E). reflexivity.
+  - unfold FoldFacts.shift_fold_needs_nonneg_count. cbn [negb orb]. destruct (0 <=? z0) eqn:E; [|reflexivity].
+    apply Z.leb_le in E. cbn [eval v_arith]. rewrite (fold_shift_sound Shr z z0 (or_intror eq_refl) E). reflexivity.
 Qed.
 Lemma bconst_sound : forall e b, bconst e = Some b -> forall en, eval en e = VBool b.
 Proof.
